@@ -347,7 +347,10 @@ func (c *RootConfig) Initialize(ctx context.Context) error {
 		}
 		parentPkgConfig := c.Packages[recursivePackageName]
 		for _, subpkg := range subpkgs {
-			if c.ShouldExcludeSubpkg(subpkg) {
+			// Use the recursive package's own (already merged) config, so that
+			// exclude-subpkg-regex takes effect when written on the package
+			// and not only at the top level.
+			if parentPkgConfig.Config.ShouldExcludeSubpkg(subpkg) {
 				pkgLog.Debug().Msg("package was marked for exclusion")
 				continue
 			}
